@@ -248,12 +248,25 @@ class ConcEngine(object):
             cids = [mdl.cid_of(c) for c in w.contents] + [mdl.resolve_cid(["x", k]) for k in range(3)]
             ob = AtomObserver(w, w.mcontents, cids, mdl.algo)
             w.run.observers.append(ob)
+        fp = None
+        if prog.get("fault"):
+            # one injected I/O error somewhere in the concurrent phase (C08: calls that fail part-way)
+            from .single import ERRNOS
+            f = prog["fault"]
+            fp = seam.FaultPlan(f["index"], ERRNOS[f.get("errno", "EIO")], bool(f.get("persistent")))
+            w.run.fault = fp
         stagger = prog.get("stagger") or []
         for ti, ops in enumerate(prog["tasks"]):
             store = w.fork_view() if mp else w.store
             sch.spawn(make_body(ti + 1, ops, store), start_after=stagger[ti] if ti < len(stagger) else 0)
         sch.run_all()
         w.run.sched = None
+        if fp is not None:
+            fp.clear()
+            w.run.fault = None
+            if fp.fired is not None:
+                res.stats["faults"] = {"%s:%s" % (fp.fired.kind, prog["fault"].get("errno", "EIO")): fp.fired_n}
+                res.flags.add("fault-fired")
         if ob is not None:
             w.run.observers.remove(ob)
             res.stats["probes"] = {"observation_points": ob.points}
@@ -291,6 +304,15 @@ class ConcEngine(object):
                     res.violations.append(Violation(self.c08(), "liveness", "liveness:self-deadlock",
                                                     {"call": c.op, "extra": _jsonable(c.extra)}))
                     return
+        if fp is not None:
+            # after an injected fault only the liveness oracles apply (what a failed call may leave
+            # behind is C13's subject, decided one call at a time by the FAULT engine)
+            with seam.activate(w.run, 0):
+                v = self.followups(None, scenario)
+                if v is not None:
+                    v.props = self.c08()
+                    res.violations.append(v)
+            return
         with seam.activate(w.run, 0):
             fin = w.alpha()
             order, why = linearize(mdl, calls, fin)
@@ -376,12 +398,12 @@ class ConcEngine(object):
             fu.append({"op": "smeta", "pid": pi, "fmt": f, "m": 0})
             fu.append({"op": "rmeta", "pid": pi, "fmt": f})
         for op in fu:
-            exp = mdl.apply(op)
+            exp = mdl.apply(op) if mdl is not None else None
             out, extra = w.exec_op(op)
             if out == ("exc", "Deadlock") or out == ("exc", INPROGRESS):
                 return Violation({"C08"}, "locked", "locked:followup-blocked:%s" % op["op"],
                                  {"followup": op, "got": list(out), "scenario": scenario})
-            if op["op"] == "delete":
+            if op["op"] == "delete" or exp is None:
                 continue  # may report the pid as unknown
             if not exp.matches(out):
                 return Violation({"C08"}, "followup", "followup:%s:%s->%s" % (op["op"], _expsig(exp), _outsig(out)),
